@@ -1,7 +1,7 @@
 ------------------------------ MODULE TraceText ------------------------------
 (* Trace validation of parse_cvss_from_text events against the extraction contract. *)
-EXTENDS TextParser
-T == JsonDeserialize(IOEnv.TRACE_FILE)
+EXTENDS TextParser, TraceData
+T == TraceData
 VARIABLES i, ph
 Init == i \in 1..Len(T) /\ ph = 0
 Next == ph = 0 /\ ph' = 1 /\ i' = i
